@@ -354,6 +354,10 @@ def handle_trace_viols(ctx, found, max_report=5):
     seen = set()
     for trace, v in found:
         props = set(v["bad"])
+        if "GEN" in props:
+            # the two levels of the specification disagree, or a generator left the input contract:
+            # the machinery is at fault, nothing is reported about ice
+            raise Fault("generator/specification inconsistency (GEN) at %s line %d: %s" % (trace, v["l"], short(v, 600)))
         ev = trace_line(trace, v["l"])
         sig = "%s %s" % (v["ev"], short(dict(event=ev, exp=v.get("exp")), 2000))
         k = match_known(known, props, sig)
